@@ -219,7 +219,7 @@ theorem hornerPoly_ne_zero (cs : List F) (h : ∃ c ∈ cs, c ≠ 0) : hornerPol
 /-- A non-zero vector of an `F`-vector space is seen by some linear functional. -/
 theorem exists_functional_ne_zero (v : G) (hv : v ≠ 0) : ∃ ψ : G →ₗ[F] F, ψ v ≠ 0 := by
   by_contra hcon
-  push_neg at hcon
+  push Not at hcon
   exact hv ((Module.forall_dual_apply_eq_zero_iff F v).mp hcon)
 
 open Polynomial in
